@@ -174,8 +174,24 @@ func corpus(repo string) [][]byte {
 			out = append(out, []byte(s[:n]), []byte(s[:n]+"\n"))
 		}
 	}
+	// EQU reference graphs with many paths but few names (a(i) refers to a(i-1) and a(i-2): Fibonacci-many paths).  The
+	// values are empty, so nothing large is ever built: only a cycle check that walks every path is slow
+	noMutate = 0
+	for _, n := range []int{30, 45, 80} {
+		noMutate += 2
+		var sb strings.Builder
+		sb.WriteString("a0 equ\na1 equ\n")
+		for i := 2; i <= n; i++ {
+			fmt.Fprintf(&sb, "a%d equ a%d a%d\n", i, i-1, i-2)
+		}
+		out = append(out, []byte(sb.String()+" dat 0\n"), []byte(sb.String()+"for 1\n dat 0\nrof\n"))
+	}
 	return out
 }
+
+// number of trailing corpus entries that are assembled as they are but never used as a base for mutation (a mutation can
+// give their leaves a value, and then textual substitution itself is exponential, which no assembler can help)
+var noMutate int
 
 func mutate(r *rand.Rand, b []byte) []byte {
 	b = append([]byte{}, b...)
@@ -335,7 +351,7 @@ func cmdFuzz(args []string) {
 	cor := corpus(*repo)
 	for id := 0; id < *n; id++ {
 		var text []byte
-		base := cor[r.Intn(len(cor))]
+		base := cor[r.Intn(len(cor)-noMutate)]
 		if id < len(cor) {
 			text = cor[id]
 		} else {
